@@ -65,6 +65,52 @@ def scram_pbkdf2_decodes_salt(repo):
     return in_helper or at_call
 
 
+def shim_gate_is_strict(repo):
+    """protocol.py: _SessionShim.onWelcome - the gate in front of IAuthenticator.on_welcome.  Recognises exactly two shapes:
+       lenient: `if msg.authmethod is None or self._authenticators is None: return`
+       strict : `if self._authenticators is None: return` then
+                `if msg.authmethod is None: if 'anonymous' in A or 'anonymous-proxy' in A: return; return <str>`
+       each followed by the lookup `self._authenticators[msg.authmethod]` (KeyError -> RuntimeError) and
+       `return authenticator.on_welcome(self, msg.authextra)`.  Anything else: ValueError (fail closed)."""
+    tree = ast.parse(open(os.path.join(repo, "src", "autobahn", "wamp", "protocol.py")).read())
+    cls = [n for n in tree.body if isinstance(n, ast.ClassDef) and n.name == "_SessionShim"]
+    if len(cls) != 1:
+        raise ValueError("protocol.py: class _SessionShim not found exactly once")
+    fn = [n for n in cls[0].body if isinstance(n, ast.FunctionDef) and n.name == "onWelcome"]
+    if len(fn) != 1 or [a.arg for a in fn[0].args.args] != ["self", "msg"]:
+        raise ValueError("protocol.py: _SessionShim.onWelcome(self, msg) not found exactly once")
+    body = [st for st in fn[0].body if not (isinstance(st, ast.Expr) and isinstance(st.value, ast.Constant))]
+    if len(body) < 3:
+        raise ValueError("protocol.py: _SessionShim.onWelcome has an unrecognised body")
+    *guards, tr, ret = body
+    if not (isinstance(ret, ast.Return) and ret.value is not None and ast.unparse(ret.value) == "authenticator.on_welcome(self, msg.authextra)"):
+        raise ValueError("protocol.py: _SessionShim.onWelcome does not end in `return authenticator.on_welcome(self, msg.authextra)`")
+    ok_try = (isinstance(tr, ast.Try) and len(tr.body) == 1 and ast.unparse(tr.body[0]) == "authenticator = self._authenticators[msg.authmethod]"
+              and len(tr.handlers) == 1 and tr.handlers[0].type is not None and ast.unparse(tr.handlers[0].type) == "KeyError"
+              and len(tr.handlers[0].body) == 1 and isinstance(tr.handlers[0].body[0], ast.Raise)
+              and isinstance(tr.handlers[0].body[0].exc, ast.Call) and ast.unparse(tr.handlers[0].body[0].exc.func) == "RuntimeError"
+              and not tr.orelse and not tr.finalbody)
+    if not ok_try:
+        raise ValueError("protocol.py: _SessionShim.onWelcome: unrecognised authenticator lookup")
+
+    def bare_return(st):
+        return isinstance(st, ast.Return) and st.value is None
+
+    def is_if(st, test, n_body):
+        return isinstance(st, ast.If) and ast.unparse(st.test) == test and len(st.body) == n_body and not st.orelse
+    if len(guards) == 1 and is_if(guards[0], "msg.authmethod is None or self._authenticators is None", 1) and bare_return(guards[0].body[0]):
+        return False
+    if (len(guards) == 2 and is_if(guards[0], "self._authenticators is None", 1) and bare_return(guards[0].body[0])
+            and is_if(guards[1], "msg.authmethod is None", 2)
+            and is_if(guards[1].body[0], "'anonymous' in self._authenticators or 'anonymous-proxy' in self._authenticators", 1)
+            and bare_return(guards[1].body[0].body[0])
+            and isinstance(guards[1].body[1], ast.Return) and isinstance(guards[1].body[1].value, ast.Constant)
+            and isinstance(guards[1].body[1].value.value, str) and guards[1].body[1].value.value):
+        return True
+    raise ValueError("protocol.py: _SessionShim.onWelcome: unrecognised guard(s) in front of on_welcome: "
+                     + " | ".join(ast.unparse(g).replace("\n", " ")[:120] for g in guards))
+
+
 # ---------------------------------------------------------------------------------------------------------
 # Coq term printers
 # ---------------------------------------------------------------------------------------------------------
@@ -141,6 +187,9 @@ def tables(t):
     return f"(mkT {e2('h256')} {e3('hmac256')} {e3('hmac1')} {e5('pbkdf2')} {e5('argon')} {e3('sign')} {sasl} {rep})"
 
 
+STRICT_GATE = [True]
+
+
 def coq_case(c, decode_salt):
     global SH
     SH = Share()
@@ -186,6 +235,18 @@ def _coq_case(c, decode_salt):
         outs = "[" + ";".join(res(o_, hx) for o_ in c["outs"]) + "]"
         st = f"({opt(c['state'][0], hx)},{opt(c['state'][1], hx)})"
         return f"CScramHistory {tb} {blit(decode_salt)} {sl(c['password'])} {sl(c['authid'])} {ops} {outs} {st}"
+    if k == "session_welcome":
+        cfg = "(Some [" + ";".join(nl(n) for n in c["configured"]) + "])"
+        st = f"({opt(c['state'][0], hx)},{opt(c['state'][1], hx)})"
+        if c["ax"] is None:
+            ax = "AxAbsent"
+        elif c["ax"]["dict"] is None:
+            ax = "(AxDict None)"
+        elif c["ax"]["dict"] == "other":
+            ax = "(AxDict (Some SvOther))"
+        else:
+            ax = f"(AxDict (Some (SvText {pyv(c['ax']['dict'])})))"
+        return f"CSessionWelcome {tb} {blit(STRICT_GATE[0])} {cfg} {st} {opt(c['authmethod'], nl)} {ax} {blit(c['joined'])}"
     if k == "scram_cred":
         return f"CScramCred {tb} {sl(c['password'])} {hx(c['salt'])} {res(o, lambda v: '(' + sl(v[0].encode()) + ',' + sl(v[1].encode()) + ')')}"
     if k == "cs_sign":
@@ -206,20 +267,20 @@ def _coq_case(c, decode_salt):
 AREA = {"totp": ("compute_totp",), "check_totp": ("check_totp", "compute_totp"),
         "cra": ("AuthWampCra", "derive_key", "compute_wcs", "pbkdf2"), "derive_key": ("derive_key", "pbkdf2"), "wcs": ("compute_wcs",),
         "pbkdf2": ("pbkdf2",), "scram_challenge": ("AuthScram.on_challenge", "derive_scram"), "scram_welcome": ("AuthScram.on_welcome",),
-        "scram_cred": ("derive_scram_credential",), "scram_history": ("AuthScram.on_welcome", "AuthScram.on_challenge"), "cs_sign": ("cryptosign", "CryptosignKey"), "xor": ("util.xor",),
+        "scram_cred": ("derive_scram_credential",), "scram_history": ("AuthScram.on_welcome", "AuthScram.on_challenge"), "session_welcome": ("session/",), "cs_sign": ("cryptosign", "CryptosignKey"), "xor": ("util.xor",),
         "create": ("create_authenticator",)}
 
 
 def nontrivial(c):
     """reached the modelled core: a primitive was called, or a codec/xor produced output"""
-    return bool(c.get("tables")) or c["kind"] == "scram_history" or ("ok" in c["out"] and c["kind"] in ("xor", "codec", "codec_s", "codec_n", "create"))
+    return bool(c.get("tables")) or c["kind"] in ("scram_history", "session_welcome") or ("ok" in c["out"] and c["kind"] in ("xor", "codec", "codec_s", "codec_n", "create"))
 
 
 # ---------------------------------------------------------------------------------------------------------
 def plan(ck):
     if ck.quick():
         caps = {"cra": 80, "derive_key": 20, "wcs": 25, "pbkdf2": 25, "totp": 90, "check_totp": 30, "scram_challenge": 16,
-                "scram_welcome": 28, "scram_history": 40, "cs_sign": 22, "xor": 50, "codec": 200, "codec_s": 120, "codec_n": 60, "create": 20, "scram_cred": 1}
+                "scram_welcome": 28, "scram_history": 40, "session_welcome": 70, "cs_sign": 22, "xor": 50, "codec": 200, "codec_s": 120, "codec_n": 60, "create": 20, "scram_cred": 1}
         jobs = [dict(parts=["vectors", "misc"], n_misc=150),
                 dict(parts=["cra"], n_cra=220),
                 dict(parts=["totp"], n_totp=140),
@@ -230,7 +291,7 @@ def plan(ck):
                 dict(parts=["cs"], n_cs=60, exhaustive_every=15, sub=1)]
     else:
         caps = {"cra": 260, "derive_key": 60, "wcs": 60, "pbkdf2": 60, "totp": 380, "check_totp": 150, "scram_challenge": 90,
-                "scram_welcome": 220, "scram_history": 150, "cs_sign": 160, "xor": 300, "codec": 1500, "codec_s": 700, "codec_n": 300, "create": 20, "scram_cred": 2}
+                "scram_welcome": 220, "scram_history": 150, "session_welcome": 540, "cs_sign": 160, "xor": 300, "codec": 1500, "codec_s": 700, "codec_n": 300, "create": 20, "scram_cred": 2}
         jobs = [dict(parts=["vectors", "misc"], n_misc=1500)]
         for s in range(4):
             jobs.append(dict(parts=["cra"], n_cra=2500, sub=s))
@@ -250,10 +311,13 @@ def plan(ck):
     # the real ApplicationSession: HELLO/CHALLENGE/AUTHENTICATE/WELCOME with forged and genuine server signatures
     for fw in ("tx", "aio"):
         jobs.append(dict(parts=["session"], n_session=(18 if ck.quick() else 180), seed=f"{ck.seed}/C19/session", framework=fw))
+    # the WELCOME grid (configured authenticators x challenge done x authmethod x authextra shape), complete in both tiers
+    for fw in ("tx", "aio"):
+        jobs.append(dict(parts=["welcome"], welcome_reps=(1 if ck.quick() else 4), seed=f"{ck.seed}/C19/welcome", framework=fw))
     for j in jobs:
         j["vector_files"] = [VECTORS]
         j["caps"] = dict(caps)
-    jobs[-3]["caps"]["cs_sign"] = 12 if ck.quick() else 60
+    jobs[-5]["caps"]["cs_sign"] = 12 if ck.quick() else 60
     return jobs
 
 
@@ -291,6 +355,15 @@ def run(ck):
     except Exception as e:
         ck.obligation("translator:scram_pbkdf2_salt_expression", False, f"{type(e).__name__}: {e}")
         decode_salt = False
+    try:
+        STRICT_GATE[0] = shim_gate_is_strict(vlib.REPO)
+        ck.obligation("translator:session_shim_welcome_gate", True)
+        ck.notes.append(f"protocol.py read: _SessionShim.onWelcome refuses a WELCOME without authmethod (strict gate) = {STRICT_GATE[0]}")
+        ck.obligation("source:session_welcome_gate_is_strict (C19_session_join_implies_verified is about the tree under test)", STRICT_GATE[0],
+                      "protocol.py lets a WELCOME without authmethod pass the gate: C19_session_join_lenient_gate_refuted applies")
+    except Exception as e:
+        ck.obligation("translator:session_shim_welcome_gate", False, f"{type(e).__name__}: {e}")
+        STRICT_GATE[0] = True
     # 2. theorems
     broken = ck.coq_props()
     ck.log(f"theorems built: {len(broken)} broken obligations")
@@ -347,7 +420,7 @@ def run(ck):
             continue
         ck.violation(f"model-disagrees/{c['kind']}", f"implementation and Gallina model disagree on a {c['kind']} case "
                      f"(implementation output {json.dumps(c.get('out', c.get('outs')))[:120]}); correspondence broken",
-                     {"op": "model_case", "case": c, "decode_salt": decode_salt}, found_input=False)
+                     {"op": "model_case", "case": c, "decode_salt": decode_salt, "strict_gate": STRICT_GATE[0]}, found_input=False)
     if broken and not failures:
         ck.log("proof obligations broken, no failing input found by the sweep")
 
@@ -361,6 +434,7 @@ def replay(path):
         c = r["case"]
         print("case:", json.dumps({k: v for k, v in c.items() if k != "tables"})[:1500])
         vlib.coq_make(["Model/AuthRun.vo"])
+        STRICT_GATE[0] = r.get("strict_gate", True)
         vals = ck.coq_eval(IMPORTS + "\nOpen Scope N_scope.", ["auth_case_ok (" + coq_case(c, r.get("decode_salt", False)) + ")"])
         print("Gallina model agrees with the recorded implementation output:", vals)
         return 0 if vals and vals[0].startswith("true") else 1
